@@ -112,6 +112,9 @@ func New(opt Options) (*Env, error) {
 	ptttype.SetBBSHOME(home)
 	ptttype.SHM_KEY = types.Key_t(e.ShmKey)
 	ptttype.PASSWDSEM_KEY = e.SemKey
+	// cache.Shm.Reset() and cache.CloseSHM() are no-ops unless the package is in test mode
+	cache.IsTest = true
+	cmbbs.IsTest = true
 	if opt.NoSHM {
 		return e, nil
 	}
